@@ -111,3 +111,151 @@ Lemma n_pending_call u o tr : n_pending (ECall u o :: tr) = (n_pending tr + 1)%Z
 Proof. reflexivity. Qed.
 Lemma n_pending_ret u r d tr : n_pending (ERet u r d :: tr) = (n_pending tr - 1)%Z.
 Proof. reflexivity. Qed.
+
+(** ** per-event checkers *)
+
+Lemma all_rets_ret P t r d tr : all_rets P (ERet t r d :: tr) = P t r d tr && all_rets P tr.
+Proof. reflexivity. Qed.
+Lemma all_rets_call P t o tr : all_rets P (ECall t o :: tr) = all_rets P tr.
+Proof. reflexivity. Qed.
+
+Lemma all_rets_and P Q tr :
+  all_rets (fun t r d tl => P t r d tl && Q t r d tl) tr = all_rets P tr && all_rets Q tr.
+Proof.
+  induction tr as [|ev tr IH]; [reflexivity|]. destruct ev; cbn [all_rets]; try exact IH.
+  rewrite IH. destruct (P t r d tr), (Q t r d tr), (all_rets P tr), (all_rets Q tr); reflexivity.
+Qed.
+
+Lemma all_rets_impl (P Q : tid -> res -> list drops -> list event -> bool) tr :
+  (forall t r d tl, P t r d tl = true -> Q t r d tl = true) -> all_rets P tr = true -> all_rets Q tr = true.
+Proof.
+  intros H. induction tr as [|ev tr IH]; [reflexivity|]. destruct ev; cbn [all_rets]; try exact IH.
+  rewrite !andb_true_iff. intros [H1 H2]. split; [apply H; exact H1|apply IH; exact H2].
+Qed.
+
+(** ** the buffered iterator a thread holds *)
+
+Lemma buf_size_other_call t u o tr : u <> t -> buf_size t (ECall u o :: tr) = buf_size t tr.
+Proof.
+  intros H. cbn [buf_size]. destruct o; try reflexivity.
+  destruct (Nat.eqb_spec u t); [contradiction|reflexivity].
+Qed.
+Lemma buf_size_ret t u r d tr : buf_size t (ERet u r d :: tr) = buf_size t tr.
+Proof. reflexivity. Qed.
+Lemma buf_size_call_nonbuf t o tr : (forall c, o <> BufNew c) -> buf_size t (ECall t o :: tr) = buf_size t tr.
+Proof. intros H. cbn [buf_size]. destruct o; try reflexivity. contradiction (H c); reflexivity. Qed.
+
+Lemma buf_size_pend t tr o older :
+  pend_call t tr = Some (o, older) -> (forall c, o <> BufNew c) -> buf_size t tr = buf_size t older.
+Proof.
+  induction tr as [|ev tr IH]; cbn [pend_call]; [discriminate|].
+  destruct ev as [u o'|u r d|f r d].
+  - destruct (Nat.eqb_spec u t) as [->|Hn].
+    + intros E Hb. injection E as <- <-. apply buf_size_call_nonbuf. exact Hb.
+    + intros E Hb. rewrite buf_size_other_call by assumption. apply IH; assumption.
+  - destruct (Nat.eqb u t); [discriminate|]. intros E Hb. cbn [buf_size]. apply IH; assumption.
+  - intros E Hb. cbn [buf_size]. apply IH; assumption.
+Qed.
+
+(** ** deliveries of one thread *)
+
+Lemma cov_of_pend e t tr o older : pend_call t tr = Some (o, older) -> cov_of e t tr = cov_of e t older.
+Proof.
+  induction tr as [|ev tr IH]; cbn [pend_call]; [discriminate|].
+  destruct ev as [u o'|u r d|f r d]; cbn [cov_of].
+  - destruct (Nat.eqb u t); [intros E; injection E as <- <-; reflexivity|exact IH].
+  - destruct (Nat.eqb u t); [discriminate|]. intros E. cbn [app]. apply IH. exact E.
+  - exact IH.
+Qed.
+
+Lemma cov_of_maxhi e t tr : iv_maxhi (cov_of e t tr) <= iv_maxhi (cov e tr).
+Proof.
+  induction tr as [|ev tr IH]; cbn [cov_of cov]; [lia|].
+  destruct ev as [u o'|u r d|f r d]; try exact IH.
+  rewrite !iv_maxhi_app. destruct (Nat.eqb u t); cbn [iv_maxhi]; lia.
+Qed.
+
+(** ** the iteration has been stopped: an end report, a returned skip_to_end, or a reported length of zero *)
+
+Definition zero_reported (tr : list event) : bool :=
+  match min_reported tr with Some 0 => true | _ => false end.
+
+Definition stopped (tr : list event) : bool := end_reported tr || skip_returned tr || zero_reported tr.
+
+Lemma zero_reported_cons ev tr : zero_reported tr = true -> zero_reported (ev :: tr) = true.
+Proof.
+  unfold zero_reported. destruct ev as [u o|u r d|f r d]; cbn [min_reported]; try (intros H; exact H).
+  destruct (min_reported tr) as [[|p]|]; try discriminate. intros _.
+  destruct (len_answer r) as [[n|]|]; try reflexivity. replace (N.min n 0) with 0 by lia. reflexivity.
+Qed.
+
+Lemma stopped_cons ev tr : stopped tr = true -> stopped (ev :: tr) = true.
+Proof.
+  unfold stopped. rewrite !orb_true_iff. intros [[H|H]|H].
+  - left; left. apply end_reported_cons; assumption.
+  - left; right. apply skip_returned_cons; assumption.
+  - right. apply zero_reported_cons; assumption.
+Qed.
+
+Lemma stopped_suffix s tr : suffix s tr -> stopped s = true -> stopped tr = true.
+Proof. intros [p ->] H. induction p as [|ev p IH]; [assumption|]. apply stopped_cons, IH. Qed.
+
+(** ** reported lengths *)
+
+Lemma min_reported_cons ev tr m :
+  min_reported tr = Some m -> exists m', min_reported (ev :: tr) = Some m' /\ m' <= m.
+Proof.
+  intros H. destruct ev as [u o|u r d|f r d]; cbn [min_reported]; try (exists m; split; [exact H|lia]).
+  rewrite H. destruct (len_answer r) as [[n|]|].
+  - exists (N.min n m). split; [reflexivity|lia].
+  - exists m. split; [reflexivity|lia].
+  - exists m. split; [reflexivity|lia].
+Qed.
+
+Lemma min_reported_suffix s tr m :
+  suffix s tr -> min_reported s = Some m -> exists m', min_reported tr = Some m' /\ m' <= m.
+Proof.
+  intros [p ->]. induction p as [|ev p IH]; intros H.
+  - exists m. split; [exact H|lia].
+  - destruct (IH H) as (m1 & H1 & L1). cbn [app].
+    destruct (min_reported_cons ev _ _ H1) as (m2 & H2 & L2). exists m2. split; [exact H2|lia].
+Qed.
+
+Lemma min_reported_ret_none t r d tr : len_answer r = None -> min_reported (ERet t r d :: tr) = min_reported tr.
+Proof. intros H. cbn [min_reported]. rewrite H. reflexivity. Qed.
+
+Lemma zero_reported_ret_none t r d tr : len_answer r = None -> zero_reported (ERet t r d :: tr) = zero_reported tr.
+Proof. intros H. unfold zero_reported. rewrite min_reported_ret_none by assumption. reflexivity. Qed.
+
+(** ** skips *)
+
+Lemma skip_returned_has_skip tr : skip_returned tr = true -> has_skip tr = true.
+Proof.
+  induction tr as [|ev tr IH]; cbn [skip_returned has_skip]; [discriminate|].
+  destruct ev as [u o|u r d|f r d]; cbn [skip_returned has_skip].
+  - intros H. destruct o; auto.
+  - destruct (split_call u tr) as [[o older]|] eqn:E; [|exact IH].
+    destruct o; try exact IH. intros _.
+    clear IH. induction tr as [|ev tr IH]; cbn [split_call] in E; [discriminate|].
+    destruct ev as [v o'|v r' d'|f' r' d']; cbn [has_skip].
+    + destruct (Nat.eqb v u).
+      * injection E as -> _. reflexivity.
+      * destruct o'; auto.
+    + auto.
+    + auto.
+  - exact IH.
+Qed.
+
+Lemma end_strong_end tr : end_reported_strong tr = true -> end_reported tr = true.
+Proof.
+  induction tr as [|ev tr IH]; cbn [end_reported_strong end_reported]; [discriminate|].
+  destruct ev as [u o|u r d|f r d]; try exact IH.
+  destruct (split_call u tr) as [[o older]|] eqn:E.
+  - destruct r; try (intros H; rewrite (IH H); apply orb_true_r).
+    + destruct o; try (intros H; rewrite (IH H); apply orb_true_r).
+      * intros _. reflexivity.
+      * cbn [is_end can_end andb]. intros H. apply orb_true_iff in H. destruct H as [H|H]; [rewrite H; reflexivity|rewrite (IH H); apply orb_true_r].
+    + destruct o; try (intros H; rewrite (IH H); apply orb_true_r).
+      cbn [is_end can_end is_pull andb orb]. intros _. reflexivity.
+  - destruct r; intros H; rewrite (IH H); apply orb_true_r.
+Qed.
